@@ -42,6 +42,15 @@ def configs(tier):
         out.append((dict(name=name, procs=procs, jobs=jobs, script=script,
                          pool=pk, oracle='c07'), b,
                     4000 if not T else 60000))
+    for name, procs, jobs, script in (
+            ('nothreads/2proc/2jobs', 2, J2,
+             S(2) + ['pump:3', 'close', 'join', 'late_submit']),
+            ('nothreads/1proc/close-at-once', 1, J1,
+             S(1) + ['close', 'join']),
+            ('nothreads/2proc/map', 2, JM, ['pump:1', 'close', 'join'])):
+        out.append((dict(name=name, procs=procs, jobs=jobs, script=script,
+                         pool={}, oracle='c07', threads=False),
+                    1 if not T else 2, 4000 if not T else 60000))
     if T:
         out.append((dict(name='1proc/1job/timers', procs=1, jobs=J1,
                          script=S(1) + ['close', 'join'], pool={},
